@@ -18,7 +18,7 @@ class Unsupported(Undecidable):
 SAFE_CALLS = {'int': int, 'str': str, 'len': len, 'sum': sum, 'divmod': divmod, 'tuple': tuple, 'reversed': reversed,
               'abs': abs, 'min': min, 'max': max, 'range': range, 'enumerate': enumerate, 'list': list, 'bool': bool,
               'sorted': sorted, 'zip': zip, 'dict': dict, 'set': set, 'frozenset': frozenset, 'pow': pow}
-SAFE_METHODS = {'index', 'upper', 'lower', 'zfill', 'join', 'find', 'get', 'split', 'strip', 'rstrip', 'lstrip', 'partition', 'rsplit', 'replace'}
+SAFE_METHODS = {'index', 'upper', 'lower', 'zfill', 'join', 'find', 'get', 'split', 'strip', 'rstrip', 'lstrip', 'partition', 'rsplit', 'replace', 'items', 'keys', 'values'}
 
 
 def ev(node, env, hooks=None):
@@ -127,6 +127,39 @@ def ev(node, env, hooks=None):
             return base[E(node.slice)]
         except (IndexError, KeyError, TypeError) as e:
             raise Undecidable('subscript fails: %s' % type(e).__name__)
+    if isinstance(node, (ast.GeneratorExp, ast.ListComp, ast.DictComp, ast.SetComp)) and (len(node.generators) > 1 or isinstance(node, (ast.DictComp, ast.SetComp))):
+        # nested generators / dict and set comprehensions: environments are extended generator by generator
+        envs = [dict(env)]
+        for g in node.generators:
+            if g.is_async:
+                raise Unsupported('async comprehension')
+            nxt = []
+            for e1 in envs:
+                for x in ev(g.iter, e1, hooks):
+                    e2 = dict(e1)
+                    if isinstance(g.target, ast.Name):
+                        e2[g.target.id] = x
+                    elif isinstance(g.target, ast.Tuple) and all(isinstance(n, ast.Name) for n in g.target.elts):
+                        try:
+                            vals = tuple(x)
+                        except TypeError:
+                            raise Undecidable('unpacking a non-sequence')
+                        if len(vals) != len(g.target.elts):
+                            raise Undecidable('unpacking %d values into %d names' % (len(vals), len(g.target.elts)))
+                        for n, v in zip(g.target.elts, vals):
+                            e2[n.id] = v
+                    else:
+                        raise Unsupported('comprehension target')
+                    if all(ev(c, e2, hooks) for c in g.ifs):
+                        nxt.append(e2)
+            envs = nxt
+        if isinstance(node, ast.DictComp):
+            out = {}
+            for e2 in envs:
+                out[ev(node.key, e2, hooks)] = ev(node.value, e2, hooks)
+            return out
+        vals = [ev(node.elt, e2, hooks) for e2 in envs]
+        return set(vals) if isinstance(node, ast.SetComp) else vals
     if isinstance(node, ast.GeneratorExp) or isinstance(node, ast.ListComp):
         g = node.generators[0]
         names = [g.target] if isinstance(g.target, ast.Name) else list(g.target.elts) if isinstance(g.target, ast.Tuple) else []
@@ -172,6 +205,16 @@ def ev(node, env, hooks=None):
                 raise Undecidable('re.%s arguments' % node.func.attr)
             return getattr(_re, node.func.attr)(*args)
         if isinstance(node.func, ast.Attribute) and isinstance(node.func.value, ast.Name) and node.func.value.id == 'unicodedata' \
+                and node.func.attr == 'lookup' and 'unicodedata' not in env:
+            import unicodedata as _u
+            args = [E(a) for a in node.args]
+            if len(args) != 1 or not isinstance(args[0], str):
+                raise Undecidable('unicodedata.lookup arguments')
+            try:
+                return _u.lookup(args[0])
+            except KeyError:
+                raise Undecidable('unicodedata.lookup(%r): no such character name' % args[0])
+        if isinstance(node.func, ast.Attribute) and isinstance(node.func.value, ast.Name) and node.func.value.id == 'unicodedata' \
                 and node.func.attr == 'normalize' and 'unicodedata' not in env:
             import unicodedata as _u
             args = [E(a) for a in node.args]
@@ -206,9 +249,10 @@ def ev(node, env, hooks=None):
                 raise Undecidable('method on %s' % type(obj).__name__)
             args = [E(a) for a in node.args]
             try:
-                return getattr(obj, node.func.attr)(*args)
-            except (ValueError, TypeError, IndexError) as e:
+                r = getattr(obj, node.func.attr)(*args)
+            except (ValueError, TypeError, IndexError, AttributeError) as e:
                 raise Undecidable('.%s() fails: %s' % (node.func.attr, type(e).__name__))
+            return list(r) if node.func.attr in ('items', 'keys', 'values') else r
         raise Unsupported('call')
     raise Unsupported(type(node).__name__)
 
